@@ -24,7 +24,7 @@ TraceNext ==
        \/ /\ r.ev = "Case"
           /\ cfg' = r.cfg /\ phase' = "idle" /\ wrote' = 0 /\ status' = "none" /\ alive' = TRUE
        \/ /\ r.ev = "Send" /\ AllLegal(Effective(cfg, stale, unauth), r.tokens)
-          /\ IF r.sync THEN Announce ELSE (phase \in {"idle", "granted"} /\ phase' = "sent" /\ UNCHANGED <<cfg, wrote, status, alive>>)
+          /\ IF r.sync THEN (Announce \/ AnnounceAgain) ELSE (phase \in {"idle", "granted"} /\ phase' = "sent" /\ UNCHANGED <<cfg, wrote, status, alive>>)
        \/ r.ev = "Rest" /\ AllLegal(Effective(cfg, stale, unauth), r.tokens) /\ phase = "sent" /\ UNCHANGED vars
        \/ r.ev = "Grant" /\ ServerGrant
        \/ r.ev = "Refuse" /\ ServerRefuse
